@@ -58,6 +58,36 @@ class KeyPool:
         c = ec.SECP256R1() if curve == 256 else ec.SECP384R1()
         return self._get(f"ec-{curve}-{idx}", lambda: ec.generate_private_key(c))
 
+    def ec_with_tag(self, alg=13, flags=257, tag=65535):
+        """An EC key whose DNSKEY key tag (for the given flags/algorithm) is exactly `tag` (random search, ~65536 tries, cached)."""
+        name = f"ec-tag-{alg}-{flags}-{tag}"
+        if name not in self.data:
+            curve = ec.SECP256R1() if alg == 13 else ec.SECP384R1()
+            while True:
+                k = ec.generate_private_key(curve)
+                if keytag(rdata(flags, 3, alg, rfc6605(k.public_key()))) == tag:
+                    self.data[name] = k.private_bytes(serialization.Encoding.PEM, serialization.PrivateFormat.PKCS8, serialization.NoEncryption()).decode()
+                    self.dirty = True
+                    break
+        return self._get(name, None)
+
+    def rsa_tag_collision(self, alg=8, flags=256, bits=1024):
+        """Two distinct RSA keys (e = 65537) whose DNSKEY key tags (for the given flags/algorithm) are equal (birthday search, cached)."""
+        names = (f"rsa-coll-{alg}-{flags}-{bits}-a", f"rsa-coll-{alg}-{flags}-{bits}-b")
+        if names[0] not in self.data or names[1] not in self.data:
+            seen = {}
+            while True:
+                k = _gen_rsa(65537, bits)
+                t = keytag(rdata(flags, 3, alg, rfc3110(k.public_key())))
+                if t in seen:
+                    for nm, key in zip(names, (seen[t], k)):
+                        self.data[nm] = key.private_bytes(serialization.Encoding.PEM, serialization.PrivateFormat.PKCS8,
+                                                          serialization.NoEncryption()).decode()
+                    self.dirty = True
+                    break
+                seen[t] = k
+        return tuple(self._get(nm, None) for nm in names)
+
     def ec_tag_collision(self, alg=13, flags=256):
         """Two distinct EC keys whose DNSKEY key tags (for the given flags/algorithm) are equal (birthday search, cached)."""
         names = (f"ec-coll-{alg}-{flags}-a", f"ec-coll-{alg}-{flags}-b")
